@@ -65,10 +65,13 @@ func (b *WALEntriesBuffer) Count() int {
 
 // CreateResponse creates a WALStreamResponse from the current buffer
 func (b *WALEntriesBuffer) CreateResponse() *replication_proto.WALStreamResponse {
+	// The buffered payloads are stored as serialized, never compressed, so the
+	// response must not claim a codec: a replica would try to decompress raw
+	// payloads, fail, and drop the batch
 	return &replication_proto.WALStreamResponse{
 		Entries:    b.entries,
-		Compressed: b.compression != replication_proto.CompressionCodec_NONE,
-		Codec:      b.compression,
+		Compressed: false,
+		Codec:      replication_proto.CompressionCodec_NONE,
 	}
 }
 
